@@ -483,8 +483,14 @@ func sampleOf(fam string, cs, r map[string]J) J {
 func (c *checkCtx) mismatch(fam string, cs, r map[string]J) {
 	input, _ := r["input"].(string)
 	if input == "" {
-		b, _ := json.Marshal(cs)
-		input = string(b)
+		short := map[string]J{}
+		for k, v := range cs {
+			if k != "iso" && k != "allowed" && k != "events" {
+				short[k] = v
+			}
+		}
+		b, _ := json.Marshal(short)
+		input = oneLine(string(b), 400)
 	}
 	obs, _ := json.Marshal(r["observed"])
 	exp, _ := json.Marshal(r["expected"])
